@@ -73,7 +73,7 @@ namespace
         }
     };
 
-    template <typename Coll, int Comb, bool Zero> struct G;
+    template <typename Coll, int Comb, int Zero> struct G;
 
     template <typename Coll, int Comb> WiredFn comb_fn()
     {
@@ -82,7 +82,7 @@ namespace
         else { return fn<SubAdd>(); }
     }
 
-    template <typename Coll, int Comb> struct G<Coll, Comb, false>
+    template <typename Coll, int Comb> struct G<Coll, Comb, 0>
     {
         static constexpr auto name = "hgv_reduce_graph";
         static void           compose(Wiring &w)
@@ -93,13 +93,26 @@ namespace
         }
     };
 
-    template <typename Coll, int Comb> struct G<Coll, Comb, true>
+    template <typename Coll, int Comb> struct G<Coll, Comb, 1>
     {
         static constexpr auto name = "hgv_reduce_graph_zero";
         static void           compose(Wiring &w, Scalar<"zero", Int> zero)
         {
             auto d = wire<stdlib::replay_impl, Coll>(w, Str{"d"});
             auto r = wire<stdlib::reduce_>(w, comb_fn<Coll, Comb>(), d, Int{zero.value()}).template as<TS<Int>>();
+            wire<RecSink>(w, r);
+        }
+    };
+
+    // a LIVE zero: a time-series with its own tick script (first tick in any cycle, re-ticks, or never)
+    template <typename Coll, int Comb> struct G<Coll, Comb, 2>
+    {
+        static constexpr auto name = "hgv_reduce_graph_live_zero";
+        static void           compose(Wiring &w)
+        {
+            auto d = wire<stdlib::replay_impl, Coll>(w, Str{"d"});
+            auto z = wire<stdlib::replay_impl, TS<Int>>(w, Str{"z"});
+            auto r = wire<stdlib::reduce_>(w, comb_fn<Coll, Comb>(), d, z).template as<TS<Int>>();
             wire<RecSink>(w, r);
         }
     };
@@ -126,6 +139,8 @@ namespace
             auto         dv  = src.as_dict();
             auto         d   = dv.data_view();
             Line         rem{20, us(t)}, add{21, us(t)}, mod{22, us(t)};
+            // the delta bitsets of a TSD persist until its next mutation: only a delta of THIS cycle counts
+            if (!ci.modified()) { out->line(rem); out->line(add); out->line(mod); return; }
             for (std::size_t s = d.next_removed_slot(); s != TS_DATA_NO_CHILD_ID; s = d.next_removed_slot(s))
             {
                 rem.push_back((std::int64_t)s);
@@ -164,6 +179,7 @@ namespace
         std::map<std::int64_t, std::map<Int, Int>>                      sets;
         std::map<std::int64_t, std::vector<Int>>                        removes;
         std::map<std::int64_t, bool>                                    touches;
+        std::map<std::int64_t, Int>                                     zeros;
     };
 
     template <typename Coll> std::vector<std::optional<Value>> deltas_for(const Script &s)
@@ -197,8 +213,27 @@ namespace
 
     template <typename Coll, int Comb> void run_typed(const Script &s, hgv::Out &out)
     {
-        GraphBuilder gb = s.has_zero ? build_graph<G<Coll, Comb, true>>(Int{s.zero}) : build_graph<G<Coll, Comb, false>>();
+        GraphBuilder gb;
+        if constexpr (std::is_same_v<Coll, FixL>)
+        {
+            gb = s.has_zero ? build_graph<G<Coll, Comb, 1>>(Int{s.zero}) : build_graph<G<Coll, Comb, 0>>();
+        }
+        else
+        {
+            gb = s.has_zero == 2 ? build_graph<G<Coll, Comb, 2>>()
+                 : (s.has_zero ? build_graph<G<Coll, Comb, 1>>(Int{s.zero}) : build_graph<G<Coll, Comb, 0>>());
+        }
         testing::set_replay_deltas(gb.global_state(), "d", deltas_for<Coll>(s));
+        if (s.has_zero == 2)
+        {
+            std::vector<std::optional<Int>> zs;
+            for (std::int64_t c = 0; c < s.ncycles; ++c)
+            {
+                auto it = s.zeros.find(c);
+                zs.push_back(it == s.zeros.end() ? std::nullopt : std::optional<Int>{it->second});
+            }
+            testing::set_replay_values<Int>(gb.global_state(), "z", zs);
+        }
         Obs obs{&out};
         obs.dict = std::is_same_v<Coll, Dict>;
         GraphExecutorBuilder eb;
@@ -227,8 +262,11 @@ namespace
             else if (l[0] == 2 && l.size() >= 4) { s.sets[l[1]][l[2]] = l[3]; }
             else if (l[0] == 3 && l.size() >= 3) { s.removes[l[1]].push_back(l[2]); }
             else if (l[0] == 4 && l.size() >= 2) { s.touches[l[1]] = true; }
+            else if (l[0] == 5 && l.size() >= 3) { s.zeros[l[1]] = l[2]; }
         }
         if (s.ncycles < 0 || s.ncycles > 200) { out.line({39, 1}); return; }
+        if (s.has_zero != 0 && s.has_zero != 2) { s.has_zero = 1; }
+        if (s.has_zero == 2 && s.coll != 0 && s.coll != 1) { out.line({39, 4}); return; }
         if (s.coll != 0)
         {
             // a list index outside the list would throw in the middle of the run: reject the case up front
